@@ -181,6 +181,19 @@ func (p *Program) typeByString(s string, from *types.Package) types.Type {
 		if o := pk.Scope().Lookup(s[k+1:]); o != nil {
 			return o.Type()
 		}
+		// two packages of that name may be in scope (std "net" and the repository's net): the one that declares the type
+		var cands []*types.Package
+		if from != nil {
+			cands = append(cands, from.Imports()...)
+		}
+		cands = append(cands, p.byName[s[:k]]...)
+		for _, c := range cands {
+			if c.Name() == s[:k] {
+				if o, ok := c.Scope().Lookup(s[k+1:]).(*types.TypeName); ok {
+					return o.Type()
+				}
+			}
+		}
 		return nil
 	}
 	if from != nil {
